@@ -192,10 +192,10 @@ Proof.
 Qed.
 
 (* reading what the writer prints: truncation to the millisecond, for every non-negative instant *)
-Theorem time_format_roundtrip t fr tr : 0 <= t <= max_int64 ->
-  ttml_time (format_ttml t) fr tr = Some (t - t mod 1000000).
+Theorem unmarshal_format t : 0 <= t <= max_int64 ->
+  ttml_unmarshal (format_ttml t) = Some (mkDur (t - t mod 1000000) 0 0).
 Proof.
-  intros Ht. unfold ttml_time, ttml_unmarshal, format_ttml.
+  intros Ht. unfold ttml_unmarshal, format_ttml.
   destruct (format_grammar dot 3 t) as (E & Dh & Lh & Dm & _ & _ & Ds & _ & _ & Df & Lf); [lia | lia |].
   assert (Nh : two (f_h t) <> []) by (intros E0; rewrite E0 in Lh; cbn in Lh; lia).
   assert (E1 : match_offset (format_duration t [dot] 3) = None).
@@ -204,6 +204,8 @@ Proof.
   { rewrite E. apply match_clock_frames_3; try (apply no_colon_digits; assumption).
     intros Hin. apply in_app_or in Hin. destruct Hin as [Hin|Hin]; [exact (no_colon_digits _ Ds Hin)|].
     apply in_app_or in Hin. destruct Hin as [[Hin|[]]|Hin]; [discriminate | exact (no_colon_digits _ Df Hin)]. }
-  rewrite E1, E2, (parse_format dot 3 t dot_sep_ok) by lia.
-  rewrite duration_plain. reflexivity.
+  rewrite E1, E2, (parse_format dot 3 t dot_sep_ok) by lia. reflexivity.
 Qed.
+Theorem time_format_roundtrip t fr tr : 0 <= t <= max_int64 ->
+  ttml_time (format_ttml t) fr tr = Some (t - t mod 1000000).
+Proof. intros Ht. unfold ttml_time. rewrite (unmarshal_format t Ht), duration_plain. reflexivity. Qed.
